@@ -24,8 +24,11 @@ def regenerate_table(chk, which="Access"):
     finally:
         shutil.rmtree(scratch, ignore_errors=True)
     rows = []
+    WG_MISUSE[:] = []
     for l in o.splitlines():
         f = l.split("\t")
+        if len(f) == 2 and f[0] == "WGMISUSE":
+            WG_MISUSE.append(f[1])
         if len(f) != 6:
             continue
         locks = {}
@@ -35,6 +38,8 @@ def regenerate_table(chk, which="Access"):
         rows.append(dict(loc=f[0], role=f[1], write=f[2] == "true", locks=locks, own=f[4] == "true", where=f[5]))
     rc, co, _ = vlib.sh(["coqc", "-Q", "theories", "GR", "-Q", "gen", "GRG", "gen/" + which + ".v"], cwd=vlib.COQ, timeout=900)
     return rows, rc == 0, co
+
+WG_MISUSE = []      # sync.WaitGroup.Add calls inside a function started with `go` (from the last translator run)
 
 def pair_ok(a, b):
     """the same predicate as Lockset.pair_ok (used only to NAME the offending pair when the Coq obligation fails)"""
@@ -117,6 +122,10 @@ def run_c14(tier, seed):
         seen.add(sig)
         chk.violation(sig, "the race detector reports a data race in the framework: %s" % " ; ".join("%s (%s:%s)" % f for f in fw[:6]), dict(report=rep[:6000], frames=fw[:12],
                       note="also in the static table as a failing pair" if bad_pairs else "the static table passed this pair: the translator missed an access or a lock region"))
+    if WG_MISUSE and not chk.violations:
+        chk.violation("waitgroup-add-in-goroutine", "sync.WaitGroup.Add for a goroutine is executed inside that goroutine: %s - a concurrent Wait (Stop) can pass before the Add, so Stop returns while "
+                      "the goroutine is still starting (theorem Access.wg_discipline_ok fails); the race detector found no report in %d workload runs" % ("; ".join(WG_MISUSE[:4]), stats.get("runs", 0)),
+                      dict(broken="GRG.Access.wg_discipline_ok (wg_add_in_spawned = [])", sites=WG_MISUSE[:10]), True)
     if (not coq_ok or bad_pairs) and not chk.violations:
         if bad_pairs:
             a, b = bad_pairs[0]
